@@ -72,6 +72,26 @@ type RecBackend struct {
 	gateTag     string
 	gateEntered chan struct{}
 	gate        chan struct{}
+
+	// terminate gate (HoldTerminate): Terminate of the client with this id waits
+	// before it reaches the memory backend - the client is dying, yet still the
+	// active client of its session
+	termID      string
+	termEntered chan struct{}
+	termGate    chan struct{}
+}
+
+// HoldTerminate arms the terminate gate for the next Terminate of client id.
+// entered is closed when that call has arrived; release lets it proceed. The
+// gate opens by itself after 3 ceilings. (A Backend may take any time to
+// terminate a client; the gate only widens a window that exists anyway.)
+func (r *RecBackend) HoldTerminate(id string) (entered <-chan struct{}, release func()) {
+	r.mu.Lock()
+	defer r.mu.Unlock()
+	r.termID, r.termEntered, r.termGate = id, make(chan struct{}), make(chan struct{})
+	g := r.termGate
+	var once sync.Once
+	return r.termEntered, func() { once.Do(func() { close(g) }) }
 }
 
 // HoldAck arms the ack gate for the publish whose payload tag is tag. entered
@@ -319,6 +339,21 @@ func (r *RecBackend) Dequeue(c *broker.Client) (*packet.Message, broker.Ack, err
 func (r *RecBackend) Terminate(c *broker.Client) error {
 	seq := r.EL.Add(memconn.Event{Actor: "backend", Op: "Terminate", Note: c.ID()})
 	r.rec(Call{Seq: seq, Hook: "Terminate", Client: c, ID: c.ID()})
+	r.mu.Lock()
+	gated := r.termID != "" && r.termID == c.ID()
+	tEntered, tGate := r.termEntered, r.termGate
+	if gated {
+		r.termID = ""
+	}
+	r.mu.Unlock()
+	if gated {
+		r.EL.Add(memconn.Event{Actor: "backend", Op: "Terminate-held", Note: c.ID()})
+		close(tEntered)
+		select {
+		case <-tGate:
+		case <-time.After(3 * ev.Ceiling()):
+		}
+	}
 	if r.fail("Terminate", c) {
 		// the memory backend must still learn about it, otherwise the session stays taken
 		_ = r.MemoryBackend.Terminate(c)
